@@ -139,13 +139,18 @@ int main(int argc, char** argv) {
   // the deferred stop request was started (it is the second thing enqueued at most), after it ran
   auto monitor = [&](const dsched::Result& r) -> std::string {
     int roots = 0, adds = 0, subs = 0; bool leaf_done = false, early = false;
+    const char* want = outk == 'v' ? "!root value" : outk == 'e' ? "!root error" : "!root done";
+    std::string wrong;
     for (auto& e : r.trace) {
+      if (e.find("!root ") != std::string::npos && e.find(want) == std::string::npos) wrong = e;
       if (e.find("!root ") != std::string::npos) { ++roots; if (!leaf_done) early = true; if (adds != 0 && subs < 2) early = true; }
       if (e.find("leaf.complete") != std::string::npos) leaf_done = true;
       if (e.find("thunk.refCount A") != std::string::npos) ++adds;
       if (e.find("thunk.refCount U") != std::string::npos) ++subs;
     }
     if (roots != 1) return "continuation resumed " + std::to_string(roots) + " times";
+    // the leaf ignores stop requests: the task's result is the leaf's, whether or not a stop request raced with it
+    if (!wrong.empty()) return std::string("task completed with `") + wrong + "` although its body ended with " + (outk == 'v' ? "a value" : outk == 'e' ? "an exception" : "done");
     if (early) return "continuation resumed before the task completed / before the started deferred stop request ran";
     return "";
   };
